@@ -11,7 +11,7 @@ CONSTANTS
   MaxTrades = 2
   ContinueAfterReject = TRUE
   Grid = 2
-  NH = 3
+  NH = 4
 INIT Init
 NEXT Next
 INVARIANT Inv_C03_NonNeg_
